@@ -103,7 +103,7 @@ def _gen(g):
         case["msgs"] = {"a": msgs(3, [1, 100, 4096, 65536]), "b": []}
         case["bufs"] = None
         case["local"] = {"who": g.choice(["reader", "writer"]), "leftover": g.bool(), "first": g.choice([13, 15, 20, 1000]),
-                         "parked": g.chance(45), "big": g.choice([100, 1 << 20, 4 << 20, 4 << 20])}
+                         "parked": g.bool(), "big": g.choice([100, 1 << 20, 4 << 20, 4 << 20])}
     else:
         case["msgs"] = {"a": msgs(2, [100, 4096]), "b": []}
         case["bufs"] = 16384
@@ -456,8 +456,10 @@ async def scenario_close(case, out, stats, w, r):
                 if got != big:
                     out.bad("bytes-lost-or-extra", "close-parked", f"{got} of {big}")
 
-            tg.start_soon(drain)
-            await w.send(pat(0, big))
+            async with create_task_group() as tg2:
+                tg2.start_soon(w.send, pat(0, big))
+                await anyio.sleep(0.05)          # the writer is now waiting for the socket to become writable
+                tg2.start_soon(drain)
             await anyio.sleep(0.02)
             await w.aclose()
         if res.get("r", ("none",))[0] == "blocked":
